@@ -946,4 +946,45 @@ func run(c *mc.Ctx) {
 			w.Fail("EdPublicKeyToX25519/length", fmt.Sprintf("EdPublicKeyToX25519(%d bytes) ok=%v want %v", n, got, ok), map[string]int{"len": n})
 		}
 	})
+
+	// ---------------------------------------------------------------- history on the exported, caller-writable Basepoint slice
+	// (run last and alone: it writes to a package-level value).  The fixed-base fast path is selected by the identity of
+	// the slice, not by its contents: [X25519(k, Basepoint) succeeds; the caller overwrites a byte of Basepoint;
+	// X25519(k, Basepoint) again] must either refuse (panic or error - the unchanged tree panics) or return the RFC 7748
+	// result for the u-coordinate the slice NOW holds - never silently k*9.  Afterwards the bytes are restored and the
+	// fixed-base result must be k*9 again.
+	type bpMod struct {
+		pos int
+		val byte
+	}
+	mods := []bpMod{{0, 5}, {1, 1}, {0, 10}, {31, 0x40}, {16, 0x80}, {0, 8}}
+	c.Seq("basepoint-overwritten-history", len(mods), func(w *mc.W, i int) {
+		m := mods[i]
+		w.Eval("basepoint-overwritten-history", true)
+		k := mc.Bytes(c.Seed, "c07-bp-hist", i, 32)
+		nine := append([]byte{}, x25519.Basepoint...)
+		wantBase := refx.X25519(k, nine)
+		cas := map[string]string{"k": hx(k), "position": fmt.Sprint(m.pos), "value": fmt.Sprint(m.val)}
+		call := func() (out []byte, err error, panicked interface{}) {
+			defer func() { panicked = recover() }()
+			out, err = x25519.X25519(k, x25519.Basepoint)
+			return
+		}
+		if o, err, p := call(); p != nil || err != nil || !bytes.Equal(o, wantBase) {
+			w.Fail("X25519/Basepoint-history/first-call", fmt.Sprintf("X25519(k, Basepoint)=%x err=%v panic=%v want %x", o, err, p, wantBase), cas)
+			return
+		}
+		old := x25519.Basepoint[m.pos]
+		x25519.Basepoint[m.pos] = m.val
+		held := append([]byte{}, x25519.Basepoint...)
+		o, err, p := call()
+		x25519.Basepoint[m.pos] = old
+		if p == nil && err == nil && !bytes.Equal(o, refx.X25519(k, held)) {
+			w.Fail("X25519/Basepoint-history/stale-fast-path", fmt.Sprintf("after one successful call the caller set Basepoint[%d]=%#x; X25519(k, Basepoint) returned %x without refusing, but the slice holds u=%x whose RFC 7748 result is %x (k*9 is %x)",
+				m.pos, m.val, o, held, refx.X25519(k, held), wantBase), cas)
+		}
+		if o, err, p := call(); p != nil || err != nil || !bytes.Equal(o, wantBase) {
+			w.Fail("X25519/Basepoint-history/after-restore", fmt.Sprintf("after the bytes were restored X25519(k, Basepoint)=%x err=%v panic=%v want %x", o, err, p, wantBase), cas)
+		}
+	})
 }
